@@ -36,6 +36,7 @@ ROLES = {
     "impls::codec::dictionary::DictionaryCodec": [
         ("encode", ("ty", "BTreeMap")), ("decode", ("ty", "BytesMap")), ("stats", ("ty", "MisraGries"))],
     "impls::codec::CodecRegion": [("codec", ("calls", {"Codec"})), ("inner", ("calls", REGIONISH))],
+    "impls::huffman_container::encoded::BitIterator": [("bytes", ("typrefix", "&")), ("bit_range", ("rest",))],
 }
 
 
@@ -212,6 +213,19 @@ def apply(d):
 # ---------------------------------------------------------------------------------------------
 # module-path canonicalisation
 
+def norm_ty(s):
+    """a field type with lifetimes and module paths removed (the shape that survives a rename of
+    the type's own name and a move between modules)"""
+    import re
+    s = re.sub(r"'[a-z_]+ ?", "", s)
+    s = re.sub(r"\b(?:[A-Za-z_][A-Za-z0-9_]*::)+", "", s)
+    return re.sub(r"\s+", "", s)
+
+
+def adt_shape(a):
+    return {"kind": a.get("kind"), "variants": [sorted(norm_ty(f["ty"]["s"]) for f in v["fields"]) for v in a.get("variants", [])]}
+
+
 def canon_paths(text):
     """Moving a type into a sub-module (`impls::index::Stride` -> `impls::index::stride::Stride`,
     re-exported under its old public path) is behaviour-preserving, but rustc's definition paths --
@@ -241,6 +255,28 @@ def canon_paths(text):
         cands = [q for q in by_name.get(P.split("::")[-1], []) if q not in pinned_set]
         if len(cands) == 1:
             mapping[cands[0]] = P
+    # a private type that was *renamed* (BitIterator -> BitCursor): a pinned path that is still
+    # unaccounted for is matched by shape -- same kind, same field types per variant up to
+    # lifetimes and module paths -- against the types that are new; only a unique match counts
+    try:
+        shapes = json.load(open(os.path.join(here, "pinned_adt_shapes.json")))
+    except (OSError, ValueError):
+        shapes = {}
+    by_path = {a["path"]: a for a in d["adts"]}
+    taken = set(mapping)
+    new_types = [q for q in present if q not in pinned_set and q not in taken and "<" not in q and "_::" not in q
+                 and "::tests::" not in q]
+    for P in pinned:
+        if P in present_set or P in mapping.values() or P not in shapes:
+            continue
+        if not any(shapes[P]["variants"]) or sum(len(v) for v in shapes[P]["variants"]) < 2:
+            continue  # unit / single-field types have no telling shape
+        # a field whose type is the renamed type's own sibling (a pinned type that is gone too)
+        # is compared with that name wild-carded
+        cands = [q for q in new_types if adt_shape(by_path[q]) == shapes[P]]
+        if len(cands) == 1 and sum(1 for P2 in pinned if P2 not in present_set and shapes.get(P2) == shapes[P]) == 1:
+            mapping[cands[0]] = P
+            new_types.remove(cands[0])
     if not mapping:
         return d, {}
     # module prefixes too (inherent impl blocks and free functions of a moved module keep working
